@@ -89,7 +89,7 @@ def main(chk):
 
     prof = gen.Profile(nan_canon=True, w_trace=0.3, w_control=0.6)
     prof.ops = set(wasm.NUMERIC)
-    nmods = 20 if quick else 1200
+    nmods = 120 if quick else 1200
     vectors = 8 if quick else 12
     pbuilds = [('gcc-O1', 'gcc', ['-O1'], [], None)]
     if not quick:
